@@ -34,7 +34,11 @@ func TestMain(m *testing.M) {
 			"verif build tag kill the child process with SIGKILL there) and write failures are injected at byte positions 0, 1, around every line boundary and size-1 (RLIMIT_FSIZE in the child). Oracle, " +
 			"read from the disk after the child is dead: ./.gr is byte-identical to the file of A (or absent when A was absent) or to the file of B, A before the rename point and B after it; a fresh " +
 			"process auto-loads it without error and its globals equal A's or B's; after a write failure ./.gr is A's file. Non-trivial: crash strictly inside the write phase or between write and rename, " +
-			"with A != B and both non-empty; every (pair, point) is distinct by construction.",
+			"with A != B and both non-empty; every (pair, point) is distinct by construction. " +
+			"Saves that fail half way by themselves: the session giving B also binds a global that is cheap to build but whose printed form (50 MB and more: arrays of arrays of arrays, maps on the way, " +
+			"a map nested into itself, under a name sorting before / between / after the other bindings) does not fit the memory limit of the child (GOMEMLIMIT 48..96 MiB), so that printing it is refused in the " +
+			"middle of SaveGlobals; whether the process then dies or goes on, ./.gr must be byte-identical to A's file or hold every binding of the new state (the oversized one possibly left out), a fresh " +
+			"process must restore that state from it, and a later complete save must not be affected by what was left behind.",
 		Assumptions: []string{
 			"process death, not power loss: no fsync semantics are checked",
 			"left-over .grol*.tmp files are allowed and recorded (the property does not forbid them)",
@@ -108,6 +112,12 @@ type Case struct {
 	ProgB   string `json:"prog_b"`   // evaluated in a session that auto-loaded A
 	CrashAt string `json:"crash_at"` // "<point>:<n>" or "" ; or
 	Fsize   int64  `json:"fsize"`    // >= 0: write failure injected after this many bytes (with CrashAt == "")
+	// The saves that fail half way by themselves (c18_failsave_test.go): ProgB binds the global Oversized to a value
+	// whose printed form does not fit the memory budget MemLimit (GOMEMLIMIT of the child); ProgBRef is ProgB
+	// without that one binding.
+	MemLimit  string `json:"mem_limit,omitempty"`
+	Oversized string `json:"oversized,omitempty"`
+	ProgBRef  string `json:"prog_b_ref,omitempty"`
 }
 
 type refs struct {
@@ -139,6 +149,15 @@ func dump(dir string) (DumpOut, error) {
 
 // prepare builds the directory holding state A and computes the reference files.
 func prepare(c Case) (dirA string, rf refs, err error) {
+	dirA, rf, err = prepareA(c)
+	if err != nil {
+		return dirA, rf, err
+	}
+	return dirA, rf, refB(&rf, c.ProgB)
+}
+
+// prepareA: the directory holding state A, the file and the globals of A.
+func prepareA(c Case) (dirA string, rf refs, err error) {
 	dirA, err = os.MkdirTemp("", "verif-c18-a-")
 	if err != nil {
 		return "", rf, err
@@ -158,30 +177,35 @@ func prepare(c Case) (dirA string, rf refs, err error) {
 		}
 		rf.globA = d.Globals
 	}
+	return dirA, rf, nil
+}
+
+// refB: the file and the globals of the state a session auto-loading A and evaluating progB ends with (no fault).
+func refB(rf *refs, progB string) error {
 	dirB, err := os.MkdirTemp("", "verif-c18-b-")
 	if err != nil {
-		return dirA, rf, err
+		return err
 	}
 	defer os.RemoveAll(dirB)
 	if rf.hasA {
 		_ = os.WriteFile(filepath.Join(dirB, ".gr"), rf.bytesA, 0o644)
 	}
-	r := spawnIn(dirB, "c18-session", SessionArgs{Program: c.ProgB, AutoLoad: true, AutoSave: true}, nil, -1)
+	r := spawnIn(dirB, "c18-session", SessionArgs{Program: progB, AutoLoad: true, AutoSave: true}, nil, -1)
 	if r.Err != nil || r.Exit != 0 {
-		return dirA, rf, fmt.Errorf("harness: session B: %s %s", r, r.Stderr)
+		return fmt.Errorf("harness: session B: %s %s", r, r.Stderr)
 	}
 	rf.bytesB, _ = readGr(dirB)
 	d, err := dump(dirB)
 	if err != nil || d.LoadErr != "" {
-		return dirA, rf, fmt.Errorf("harness: state B does not load back: %v %s", err, d.LoadErr)
+		return fmt.Errorf("harness: state B does not load back: %v %s", err, d.LoadErr)
 	}
 	rf.globB = d.Globals
 	// without any fault: what the next session restores is what this session ended with
 	var so SessionOut
 	if json.Unmarshal(r.Stdout, &so) == nil && so.Globals != "" && so.Globals != d.Globals {
-		return dirA, rf, fmt.Errorf("the session ended normally with these globals:\n%s\nbut the next session restores:\n%s\n(program: %s)", trunc([]byte(so.Globals)), trunc([]byte(d.Globals)), c.ProgB)
+		return fmt.Errorf("the session ended normally with these globals:\n%s\nbut the next session restores:\n%s\n(program: %s)", trunc([]byte(so.Globals)), trunc([]byte(d.Globals)), progB)
 	}
-	return dirA, rf, nil
+	return nil
 }
 
 func leftovers(dir string) int {
@@ -554,6 +578,10 @@ func oracle(kind string, raw json.RawMessage) error {
 	}
 	if kind == "pair" {
 		c.Fsize = -1
+	}
+	if c.MemLimit != "" {
+		_, err := failingSave(c)
+		return err
 	}
 	return check(c)
 }
